@@ -529,7 +529,7 @@ def run_case(case):
     _patch_getobj()
     if case["seed"] == "raw":  # whole file bytes from the coverage-guided campaign
         data = case["data"]
-        base = [20_000, 20_000, 20_000]
+        base = [20_000, 20_000, 20_000] + ([20_000] if has_images(data) else [])
     elif case["seed"].startswith("samples/"):
         orig = open(os.path.join(REPO, case["seed"]), "rb").read()
         f = case["fault"]
